@@ -7,6 +7,7 @@ Decides (shape on every path of one tick; not firing *sequences*):
                `next = cycle + period` under period > 0; the fired mark is outside the catch-up loop (once per tick)
   3 TABLE      MTI -> ISR bit 0, STI -> ISR bit 1 in both cores
   4 GUARD-DOM  every tick call site is suppressed inside a handler (in_interrupt false) and the WAIT loops tick every cycle
+  5 EXACT      snapshot restore puts the saved next-fire targets back unconditionally and unchanged
 """
 from __future__ import annotations
 
